@@ -85,7 +85,7 @@ def explore(res, tier, seed, model_ok=True):
     nrand = 400 if tier == 'quick' else 6000
     res.rule = ('exhaustive: every sequence of <= %d server steps over a 15-symbol alphabet (good/rejecting/garbage/oversize reply, text, fragment, continuation, ping, close, invalid frame, silence, EOF, recv socket error, recv other exception, selector error) '
                 'x %d application reaction plans, always followed by EOF; random: %d histories of up to 10 steps with timers, write failures, connect failures, selector errors and random reactions; '
-                'timeouts must end the iteration also when the Close/ping write fails and when the server trickles a frame that never completes; a write fault at each write index x each kind of call at Ready x with/without negotiated compression (a blocked call is detected by a wall-clock deadline: HANG); '
+                'timeouts must end the iteration also when the Close/ping write fails and when the server trickles a frame that never completes; the ping timeout also when no automatic ping can be sent (closing with the close timeout disabled, every write failing); a write fault at each write index x each kind of call at Ready x with/without negotiated compression (a blocked call is detected by a wall-clock deadline: HANG); '
                 'judged by a monitor automaton written from the property; non-trivial = history reaching Ready or containing a fault; distinct by operation line') % (depth, len(REACTION_PLANS), nrand)
     scs = []
     base = Scenario([])
@@ -140,6 +140,18 @@ def explore(res, tier, seed, model_ok=True):
                     n = pt + 4 * poll + 6
                     tail = [('wait', 1, ('data', big[i:i + 1])) for i in range(n)] if trickle else [('wait', poll, None)] * n
                     scs.append(Scenario([('wait', 0, ('data', b.good_reply()))] + tail, {}, poll=poll, prate=2, ptimeout=pt, wfail=wf)); ntimeout += 1
+    # the ping timeout must fire also when the automatic pings themselves can not be sent: the application has called close() and
+    # the server never answers (close timeout disabled: None and 0), or every write fails on a half-dead connection while the
+    # receive side stays silent (ping_rate < ping_timeout, the documented recommendation)
+    for pt in (4, 7):
+        for poll in (1, 3):
+            for zero in (False, True):
+                b = Scenario([], poll=poll, prate=2, ptimeout=pt, ctimeout=0, zero=zero)
+                env = [('wait', 0, ('data', b.good_reply()))] + [('wait', poll, None)] * ((pt // poll) + 8)
+                scs.append(Scenario(env, {2: [('close', 1000, ('b', b'bye'))]}, poll=poll, prate=2, ptimeout=pt, ctimeout=0, zero=zero)); ntimeout += 1
+            b = Scenario([], poll=poll, prate=2, ptimeout=pt, ctimeout=0)
+            env = [('wait', 0, ('data', b.good_reply()))] + [('wait', poll, None)] * ((pt // poll) + 8)
+            scs.append(Scenario(env, {}, poll=poll, prate=2, ptimeout=pt, ctimeout=0, wfail=set(range(1, 40)))); ntimeout += 1
     res.count('timeout_must_terminate', ntimeout)
     # a failing write at every write index, for every kind of call the application makes at Ready, with and
     # without negotiated compression (the failing call must come back, the iteration must end)
